@@ -690,7 +690,7 @@ def load_corpus():
 
 def main(tier, seed, replay=None):
     t0 = time.time()
-    proof = Proof(PROP)
+    proof = Proof(PROP, tier=tier)
     exe, _ = build_model(PROP, "ExtractC11.v", os.path.join(ROOT, "ocaml/c11"), ["theories/TagApi.v"])
     rng = random.Random(seed)
     seqs = []
